@@ -213,7 +213,6 @@ def _worker_single(args):
     """Worker function for parallel execution of a single (tower, timestep) pair."""
     config, tower, met_index = args
     # Reset inherited state from parent process to avoid fork-safety issues
-    os.environ["NUMBA_NUM_THREADS"] = "1"
     from bldfm import config as cfg
 
     cfg.NUM_THREADS = 1
@@ -227,7 +226,6 @@ def _worker_timeseries(args):
     """Worker function for parallel execution of a full timeseries for one tower."""
     config, tower = args
     # Reset inherited state from parent process to avoid fork-safety issues
-    os.environ["NUMBA_NUM_THREADS"] = "1"
     from bldfm import config as cfg
 
     cfg.NUM_THREADS = 1
